@@ -4,6 +4,25 @@ the `read != 0` test, reordered match arms, restore helper) and the breaking cou
 U = "src/unix.rs"
 
 DROP_IMPL = "impl std::ops::Drop for UnixTerminal {\n"
+WAKER_MATCH = """            match rustix::io::write(&waker_write, WAKE) {
+                Ok(_) | Err(rustix::io::Errno::INTR | rustix::io::Errno::AGAIN) => Ok(()),
+                Err(error) => Err(error.into()),
+            }
+"""
+WAKER_CLOSURE = """        let waker = TerminalWaker::new(move || {
+            const WAKE: &[u8] = b"\\x00";
+            // use write syscall instead of locking so it would be safe to use in a signal handler
+""" + WAKER_MATCH + """        });
+"""
+WAKER_HELPER = """fn waker_notify(waker_write: &UnixStream) -> Result<(), Error> {
+    const WAKE: &[u8] = b"\\x00";
+    match rustix::io::write(waker_write, WAKE) {
+        Ok(_) | Err(rustix::io::Errno::INTR | rustix::io::Errno::AGAIN) => Ok(()),
+        Err(error) => Err(error.into()),
+    }
+}
+
+"""
 WAKER_IF = "                if guard_io(self.waker_read.read(&mut buf), 0)? != 0 {\n"
 WAKER_BLOCK = """                let mut buf = [0u8; 1024];
                 if guard_io(self.waker_read.read(&mut buf), 0)? != 0 {
@@ -304,4 +323,50 @@ MUTANTS = [
         (U, "                    for event in queue.into_iter().rev() {\n", "                    for event in queue.drain(..).rev() {\n")]},
     {"id": "C17-give-back-drain-forward", "prop": "C17", "expect": "EVENT-ORDER", "edits": [
         (U, "                    for event in queue.into_iter().rev() {\n", "                    for event in queue.drain(..) {\n")]},
+    # ---- waker body moved into a private helper / equivalent spellings of the errno mapping; capacity-only queue operations ----------
+    {"id": "C17-benign-waker-notify-helper", "prop": "C17", "benign": True, "edits": [
+        (U, WAKER_CLOSURE, "        let waker = TerminalWaker::new(move || waker_notify(&waker_write));\n"),
+        (U, DROP_IMPL, WAKER_HELPER + DROP_IMPL)]},
+    {"id": "C17-waker-notify-helper-again-is-error", "prop": "C17", "expect": "WAKER", "edits": [
+        (U, WAKER_CLOSURE, "        let waker = TerminalWaker::new(move || waker_notify(&waker_write));\n"),
+        (U, DROP_IMPL, WAKER_HELPER.replace("Err(rustix::io::Errno::INTR | rustix::io::Errno::AGAIN)", "Err(rustix::io::Errno::INTR)") + DROP_IMPL)]},
+    {"id": "C17-benign-waker-guard-form", "prop": "C17", "benign": True, "edits": [
+        (U, WAKER_MATCH, """            match rustix::io::write(&waker_write, WAKE) {
+                Ok(_) => Ok(()),
+                Err(e) if e == rustix::io::Errno::INTR || matches!(e, rustix::io::Errno::AGAIN) => Ok(()),
+                Err(error) => Err(error.into()),
+            }
+""")]},
+    {"id": "C17-waker-guard-form-intr-only", "prop": "C17", "expect": "WAKER", "edits": [
+        (U, WAKER_MATCH, """            match rustix::io::write(&waker_write, WAKE) {
+                Ok(_) => Ok(()),
+                Err(e) if e == rustix::io::Errno::INTR => Ok(()),
+                Err(error) => Err(error.into()),
+            }
+""")]},
+    {"id": "C17-benign-waker-if-chain", "prop": "C17", "benign": True, "edits": [
+        (U, WAKER_MATCH, """            if let Err(error) = rustix::io::write(&waker_write, WAKE) {
+                if error != rustix::io::Errno::INTR && rustix::io::Errno::AGAIN != error {
+                    return Err(error.into());
+                }
+            }
+            Ok(())
+""")]},
+    {"id": "C17-waker-if-chain-or-instead-of-and", "prop": "C17", "expect": "WAKER", "edits": [
+        (U, WAKER_MATCH, """            if let Err(error) = rustix::io::write(&waker_write, WAKE) {
+                if error != rustix::io::Errno::INTR || rustix::io::Errno::AGAIN != error {
+                    return Err(error.into());
+                }
+            }
+            Ok(())
+""")]},
+    {"id": "C17-benign-waker-second-closure-before", "prop": "C17", "benign": True, "edits": [
+        (U, "        waker_write.set_nonblocking(true)?;\n", "        let nonblocking = |stream: &UnixStream| stream.set_nonblocking(true);\n        nonblocking(&waker_write)?;\n")]},
+    {"id": "C17-benign-give-back-reserve", "prop": "C17", "benign": True, "edits": [
+        (U, "                    for event in queue.into_iter().rev() {\n", "                    self.events_queue.reserve(queue.len());\n                    for event in queue.into_iter().rev() {\n")]},
+    {"id": "C17-benign-give-back-shrink-after", "prop": "C17", "benign": True, "edits": [
+        (U, "                        self.events_queue.push_front(event);\n                    }\n", "                        self.events_queue.push_front(event);\n                    }\n                    self.events_queue.shrink_to_fit();\n")]},
+    {"id": "C17-give-back-reserve-then-push-back", "prop": "C17", "expect": "EVENT-ORDER", "edits": [
+        (U, "                    for event in queue.into_iter().rev() {\n                        self.events_queue.push_front(event);\n",
+         "                    self.events_queue.reserve(queue.len());\n                    for event in queue.into_iter() {\n                        self.events_queue.push_back(event);\n")]},
 ]
